@@ -736,7 +736,9 @@ func (g *fdGen) ufStr(s string) fdUF {
 	switch {
 	case g.p(12):
 		return fdUF{}
-	case g.malform && g.p(20):
+	case g.p(10):
+		// an ordinary input: a custom resource whose CRD does not pin the type of status.updateRevision /
+		// currentRevision may carry a number, a bool or an object there (fdWrong)
 		return fdUF{State: "wrong"}
 	}
 	return fdUF{State: "val", V: s}
